@@ -23,6 +23,8 @@ from sa.pyfront import Program
 from sa.symex import Interp
 
 RULES = {
+    "R-C03-t": "the index cube's cells at a common category are exactly margin - sum(uncommon cells), unclamped and for every region alike (imported from C02 R-C02-e): that is what the array cube and a direct group-by compute there",
+    "R-C03-s": "the input-format helper as_separate_validity (summarised by every aggregate rule) keeps its contract: a (values, validity) pair is passed through; a single array gets validity = ~isnan(array) for every dtype with a missing marker (all float widths; C03 quantifies over integer and float facts only) - a dtype shortcut to all-True is accepted only for marker-free kinds",
     "R-C03-p": "the index-cube fill closures come in a traced and an untraced variant (timing diagnostics): both store the same cell values",
     "R-C03-r": "with several fact columns and per-row weights the constructor fields stay (rows, columns): the weight vector is broadcast through paired transposes (X.T op w).T",
     "R-C03-q": "per configuration, a region that receives weight values is a float region and one that receives fact values is float or has the summed array's dtype (an integer region truncates on the store)",
@@ -355,6 +357,11 @@ def main(tier):
                       declined="numerical agreement of the two cubes and a direct group-by within 1e-9 (values, floating point); decided: sibling definitions agree in the aggregate algebra")
     rep.trusted_base = ["CPython ast", "symbolic walker + configuration oracle (sa/aggr.py)", "aggregate algebra normaliser (sa/algebra.py)", "NEP 50 promotion facts (sa/kind.py)"]
     prog = Program()
+    from sa import valhelper
+    nvh = 0
+    for _m in ('ffuncs', 'xfuncs'):
+        nvh += valhelper.check(prog, rep, _m, 'R-C03-s', kinds=('f',))
+    rep.floor('R-C03-s', 4, nvh)
     C = AT.Collector()
     AT.rule_ctor_agreement(prog, C)
     n1 = AT.rule_corner_cell(prog, C, "R-C03-b")
@@ -429,6 +436,16 @@ def main(tier):
         if o.rule == "R-C17-a":
             rep.add("R-C03-m", o.where, "[%s] %s" % (o.rule, o.construct), o.status, o.detail, True, o.witness)
     rep.floor("R-C03-m", 5, k17)
+    # R-C03-t: the index cube never visits the cells at a dimension's common category - it reconstructs them as
+    # margin - sum(uncommon), for every region alike (counts AND signed sums); the array cube and a group-by compute them
+    # directly.  The shape of that reconstruction is C02's rule R-C02-e.
+    import c02
+    sub2 = core.Report("C02", level="other", rules=c02.RULES, tier=tier)
+    c02.rule_e(prog, sub2)
+    for o in sub2.obls:
+        rep.add("R-C03-t", o.where, "[%s] %s" % (o.rule, o.construct), o.status, o.detail, True,
+                o.witness if o.status != "VIOLATED" else dict(o.witness or {}, history="ccube.sum over facts with negative values vs xcube.sum: the cell at the common category differs"))
+    rep.floor("R-C03-t", 3, len(sub2.obls))
     return rep.finish()
 
 
